@@ -78,7 +78,7 @@ static void run_c12(CaseOut &co, const GraphSpec &s, long &pairs, long &subpaths
             if (sum != d[v]) { fail("path_weight", "pred-edge weights from " + std::to_string(v) + " sum to " + std::to_string(sum) + ", weight() says " + std::to_string(d[v])); break; }
             std::reverse(pv.begin(), pv.end());
             int want_first = pv.size() >= 2 ? pv[1] : r;
-            if ((int) t.first(v) != want_first) { fail("first", "tree rooted at " + std::to_string(r) + ": first(" + std::to_string(v) + ") = " + std::to_string(t.first(v)) + ", the path passes through child " + std::to_string(want_first)); break; }
+            if (v != r /* the label of the root itself is not part of the property */ && (int) t.first(v) != want_first) { fail("first", "tree rooted at " + std::to_string(r) + ": first(" + std::to_string(v) + ") = " + std::to_string(t.first(v)) + ", the path passes through child " + std::to_string(want_first)); break; }
             path[r][v] = pv;
         }
         if (ok && childlinks != nonroot) fail("children", "tree rooted at " + std::to_string(r) + ": " + std::to_string(childlinks) + " child links for " + std::to_string(nonroot) + " non-root nodes");
@@ -309,9 +309,13 @@ static void mode_c16(const Args &a) {
             if (ok) for (int k = 0; k < m; k++) { const E &e = fi((size_t) k); if (idx.lookup(e, n) < 0 || fi(e) != (size_t) k) { fail("inverse", "fi(fi(i)) != i at " + std::to_string(k)); ok = false; break; } }
             if (ok && forest_edges != n - c) { fail("spanning", "forest has " + std::to_string(forest_edges) + " edges, a spanning forest needs " + std::to_string(n - c)); ok = false; }
             if (ok) { // copies are equal indexes
-                parmcb::ForestIndex<G> cp(fi); parmcb::ForestIndex<G> as(g); as = fi; as = as;
+                // the assignment target was built for a DIFFERENT graph (other vertex, edge and component counts): every member must be replaced
+                G other((size_t) r.range(0, 6)); { int oe = (int) r.range(0, 4); size_t on = boost::num_vertices(other); for (int q = 0; q < oe && on >= 2; q++) { size_t a1 = r.below(on), b1 = r.below(on); if (a1 != b1 && !boost::edge(a1, b1, other).second) boost::add_edge(a1, b1, other); } }
+                parmcb::ForestIndex<G> cp(fi); parmcb::ForestIndex<G> as(other); as = fi; as = as;
                 for (auto e : boost::make_iterator_range(boost::edges(g))) if (cp(e) != fi(e) || as(e) != fi(e) || !(cp(fi(e)) == e)) { fail("copy", "copied index differs from the original"); ok = false; break; }
-                if (ok && (cp.cycle_space_dimension() != fi.cycle_space_dimension() || as.weak_connected_components() != fi.weak_connected_components())) fail("copy", "copied index reports different dimension/components");
+                if (ok && (cp.cycle_space_dimension() != fi.cycle_space_dimension() || cp.weak_connected_components() != fi.weak_connected_components())) fail("copy", "copy-constructed index reports different dimension/components");
+                if (ok && (as.cycle_space_dimension() != fi.cycle_space_dimension() || as.weak_connected_components() != fi.weak_connected_components())) fail("assign", "index assigned over one built for another graph reports dimension " + std::to_string(as.cycle_space_dimension()) + " / components " + std::to_string(as.weak_connected_components()) + ", the source reports " + std::to_string(fi.cycle_space_dimension()) + " / " + std::to_string(fi.weak_connected_components()));
+                if (ok) for (auto e : boost::make_iterator_range(boost::edges(g))) if (as.is_on_forest(e) != fi.is_on_forest(e) || cp.is_on_forest(e) != fi.is_on_forest(e)) { fail("assign", "is_on_forest of a copied/assigned index differs from the source"); break; }
             }
             co.hash = canon_hash(s); co.nontrivial = m >= 2 && dim >= 1;
             co.tag("fam:" + s.family.substr(0, s.family.find('+'))); if (c > 1) co.tag("components>1"); if (dim == 0) co.tag("forest_or_empty"); if (scramble) co.tag("scrambled_layout"); if (n == 0) co.tag("empty_graph");
